@@ -535,7 +535,8 @@ def clause_props(unit, clause):
         return pr | {"C09"}
     if clause == "addr.below_1mb":
         return pr | {"C04", "C09"}
-    if clause == "mem.frame" and unit.klass == "M" and unit.kind == "production":
+    if clause in ("mem.frame", "mem.dest") and unit.klass == "M" and unit.kind == "production":
+        # C04: a memory operand is WRITTEN at its cells (mem.dest: which cells, a word low byte first) and nowhere else (mem.frame)
         return pr | {"C04"}
     return pr
 
